@@ -454,11 +454,16 @@ func booleanEncoder(_ io.Writer, val interface{}, _ *[8]byte) error {
 	return tlv.NewTypeForEncodingErr(val, "TrueBoolean")
 }
 
-func booleanDecoder(_ io.Reader, val interface{}, _ *[8]byte,
+func booleanDecoder(r io.Reader, val interface{}, _ *[8]byte,
 	l uint64) error {
 
 	if _, ok := val.(*TrueBoolean); ok && (l == 0 || l == 1) {
-		return nil
+		// The presence of the record is all that matters, but the
+		// declared value bytes must still be consumed, otherwise
+		// they'd be parsed as the start of the next record.
+		_, err := io.CopyN(io.Discard, r, int64(l))
+
+		return err
 	}
 
 	return tlv.NewTypeForEncodingErr(val, "TrueBoolean")
